@@ -7,6 +7,7 @@ import time
 import vf
 
 PID = "C07"
+ANY_COMMAND = {"AdvertisedVipStaleGatewayLink"}
 DOC = {
     "NoOrphanService/NoOrphanCheck/NoOrphanCoordinate": "no instance or check without its node, no service check without its instance, no coordinate without node",
     "CascadeComplete": "a node (service) that disappears in a step leaves none of its services, checks, coordinates (checks) behind",
@@ -16,6 +17,7 @@ DOC = {
     "TopologyRefsLive": "every mesh-topology reference names a registered instance",
     "UsageAgrees": "usage counters (nodes, service instances, service names, kv entries) equal the recount",
     "VipInjective/VipPoolDisjoint": "no two services share a virtual IP; an assigned IP is not in the free pool",
+    "AdvertisedVipStaleGatewayLink": "the same for a per-service address of a terminating gateway whose config entry no longer links that service",
     "AdvertisedVipCurrent": "every virtual IP advertised by a catalog instance (its own consul-virtual address, a terminating gateway's consul-virtual:<service> addresses) "
                             "is the current assignment of that service in service-virtual-ips",
 }
@@ -60,6 +62,9 @@ def run(tier):
                 for nm in names:
                     hits[nm] = hits.get(nm, 0) + 1
                     sig = "%s:%s:%s" % (PID, nm, e["desc"].split(" ")[0])
+                    if nm in ANY_COMMAND:
+                        # the predicate itself names the situation; the command that finally exposes it is incidental
+                        sig = "%s:%s" % (PID, nm)
                     verdict.add(sig, "%s broken by '%s' (history %d entry %d)" % (nm, e["desc"], e["h"], e["i"]),
                                 {"kind": "fsm-log", "mode": "c07", "log": log[:e["i"]], "predicate": nm})
         n_new = verdict.finish()
